@@ -4,6 +4,7 @@ import (
 	"bytes"
 	"fmt"
 	"sort"
+	"strings"
 )
 
 // Alignable is an interface that should implements Align() and String()  method
@@ -36,21 +37,29 @@ func (l Line) String() string {
 type Lines []*Line
 
 // Implements Alignable interface
+// A statement may span multiple lines (if, switch): the trailing comment follows its last
+// line, so its width is the width of the last line, not the size of the whole text.
 func (l Lines) Align() {
 	var maxLength int
 
 	for i := range l {
-		if len(l[i].Buffer) > maxLength {
-			maxLength = len(l[i].Buffer)
+		if n := lastLineLength(l[i].Buffer); n > maxLength {
+			maxLength = n
 		}
 	}
 
 	// Alignment
-	format := fmt.Sprintf("%%-%ds", maxLength)
-
 	for i := range l {
-		l[i].Buffer = fmt.Sprintf(format, l[i].Buffer)
+		l[i].Buffer += strings.Repeat(" ", maxLength-lastLineLength(l[i].Buffer))
 	}
+}
+
+// Get length of the last line of possibly multi-line string
+func lastLineLength(s string) int {
+	if p := strings.LastIndex(s, "\n"); p >= 0 {
+		return len(s) - p - 1
+	}
+	return len(s)
 }
 
 // Implements Alignable interface
